@@ -179,3 +179,25 @@ func init() {
 		judgeC10(ctx, rep, items, runIsolated(ctx, mode, items, 1, 1, rep), "replay")
 	}}
 }
+
+func init() {
+	Registry["C18"] = Monitor{Run: RunC18, Replay: func(ctx *core.Ctx, rep *core.Report, w map[string]any) {
+		if i, ok := witnessInt(w, "bag_case"); ok {
+			checkBagCase(ctx, i, rep)
+			return
+		}
+		if i, ok := witnessInt(w, "db3_case"); ok {
+			checkDB3Case(ctx, i, rep)
+			return
+		}
+		hx, _ := w["input_hex"].(string)
+		data, err := hex.DecodeString(strings.TrimSuffix(hx, "...(truncated)"))
+		if err != nil {
+			rep.Inconclusive("witness input unreadable")
+			return
+		}
+		kind, _ := w["corrupt_kind"].(string)
+		items := []WorkItem{{ID: 0, Kind: kind, Data: data}}
+		judgeC18Corrupt(rep, items, runIsolated(ctx, "c18", items, 1, 1, rep))
+	}}
+}
